@@ -296,6 +296,18 @@ static int do_ann(hwloc_topology_t t, char *line)
     r = hwloc_topology_restrict(t, set, fl);
     hwloc_bitmap_free(set); return r;
   }
+  if (!strcmp(op, "restrictnode")) {
+    /* restrictnode <numa k> <flags>: remove one NUMA node by nodeset */
+    unsigned long fl; hwloc_obj_t node; hwloc_bitmap_t set; int r;
+    if (sscanf(line, "%u %lu", &k, &fl) != 2) return -1;
+    if (hwloc_get_nbobjs_by_type(t, HWLOC_OBJ_NUMANODE) < 2) return -1;
+    node = pick_type(t, HWLOC_OBJ_NUMANODE, k); if (!node) return -1;
+    set = hwloc_bitmap_dup(hwloc_topology_get_topology_nodeset(t));
+    hwloc_bitmap_andnot(set, set, node->nodeset);
+    r = hwloc_topology_restrict(t, set, fl | HWLOC_RESTRICT_FLAG_BYNODESET);
+    hwloc_bitmap_free(set); return r;
+  }
+  if (!strcmp(op, "distremove")) return hwloc_distances_remove(t);
   if (!strcmp(op, "allow")) {
     /* allow <pu k>: custom allowed set without one PU (needs INCLUDE_DISALLOWED) */
     hwloc_obj_t pu; hwloc_bitmap_t set; int r;
@@ -662,16 +674,37 @@ static int do_export(hwloc_topology_t t, const char *mode, unsigned long xflags,
   return read_file(mode + 5, outp, lenp);
 }
 
-static void do_rt(hwloc_topology_t A, const char *mode, const char *ver, int nd)
+static void do_rt(hwloc_topology_t A, const char *mode, const char *ver, int nd, const char *dirty)
 {
   unsigned long xflags = !strcmp(ver, "v2") ? HWLOC_TOPOLOGY_EXPORT_XML_FLAG_V2 : 0;
   char *x1 = NULL, *x2 = NULL; size_t l1 = 0, l2 = 0; int bl1 = 0, bl2 = 0, rc;
   hwloc_topology_t B = NULL;
   int isbuf = !strcmp(mode, "buffer"), isstdio = !strncmp(mode, "stdio:", 6);
   int saved0 = -1;
-  printf("RT mode=%s ver=%s nd=%d libxml_export=%s libxml_import=%s libxml=%s\n", isbuf ? "buffer" : isstdio ? "stdio" : "file", ver, nd,
+  printf("RT mode=%s ver=%s nd=%d dirty=%d libxml_export=%s libxml_import=%s libxml=%s\n", isbuf ? "buffer" : isstdio ? "stdio" : "file", ver, nd, dirty ? 1 : 0,
          getenv("HWLOC_LIBXML_EXPORT") ? getenv("HWLOC_LIBXML_EXPORT") : "-", getenv("HWLOC_LIBXML_IMPORT") ? getenv("HWLOC_LIBXML_IMPORT") : "-",
          getenv("HWLOC_LIBXML") ? getenv("HWLOC_LIBXML") : "-");
+  if (dirty) {
+    /* "dirty" history: the export is the very first call after the modifying calls (no dump, no listing, no refresh in
+       between).  A forked copy of the same state exports through the other channel (file <-> buffer) first. */
+    char other[4200]; pid_t pid; int st = 0;
+    if (isbuf) snprintf(other, sizeof(other), "file:%s", dirty); else strcpy(other, "buffer");
+    hwloc_topology_set_userdata_export_callback(A, export_cb);
+    fflush(stdout);
+    pid = fork();
+    if (!pid) {
+      char *xo = NULL; size_t lo = 0; int blo = 0, r;
+      r = do_export(A, other, xflags, &xo, &lo, &blo);
+      printf("XO rc=%d len=%lu hex=", r, (unsigned long)lo);
+      if (xo) hxn(stdout, xo, lo); else putchar('-');
+      putchar('\n'); fflush(stdout);
+      _exit(0);
+    }
+    waitpid(pid, &st, 0);
+    printf("XOstatus %s %d\n", WIFSIGNALED(st) ? "sig" : "exit", WIFSIGNALED(st) ? WTERMSIG(st) : WEXITSTATUS(st));
+    ud_export_calls = 0;
+    rc = do_export(A, mode, xflags, &x1, &l1, &bl1);
+  }
   dump_prefixed("A", A);
   list_extras("AX", A);
   {
@@ -684,8 +717,10 @@ static void do_rt(hwloc_topology_t A, const char *mode, const char *ver, int nd)
   }
   hwloc_topology_set_userdata_export_callback(A, export_cb);
   model_input(A, xflags ? 1 : 0, 1);
-  ud_export_calls = 0;
-  rc = do_export(A, mode, xflags, &x1, &l1, &bl1);
+  if (!dirty) {
+    ud_export_calls = 0;
+    rc = do_export(A, mode, xflags, &x1, &l1, &bl1);
+  }
   printf("X1 rc=%d errno=%s len=%lu cbcalls=%u hex=", rc, rc < 0 ? hwv_errno_class(errno) : "0", (unsigned long)l1, ud_export_calls);
   if (x1) hxn(stdout, x1, l1); else putchar('-');
   putchar('\n');
@@ -852,8 +887,8 @@ static int run_case(FILE *in)
       if (loaded) { errno = 0; rc = do_ann(t, line + 4); }
       printf("ann %d rc=%d\n", nann++, rc);
     } else if (!strncmp(line, "rt ", 3)) {
-      char mode[4096], ver[16], opt[16] = "";
-      if (loaded && sscanf(line + 3, "%4095s %15s %15s", mode, ver, opt) >= 2) do_rt(t, mode, ver, !strcmp(opt, "nd"));
+      char mode[4096], ver[16], opt[4200] = "";
+      if (loaded && sscanf(line + 3, "%4095s %15s %4199s", mode, ver, opt) >= 2) do_rt(t, mode, ver, !strcmp(opt, "nd"), !strncmp(opt, "dirty:", 6) ? opt + 6 : NULL);
       else printf("rt skipped\n");
     } else if (!strncmp(line, "guards ", 7)) {
       if (loaded) do_guards(t, line + 7);
